@@ -140,6 +140,47 @@ fn numeric_range(a: &mut Acc, lo: u64, hi: u64, named: &BTreeMap<u32, BoxType>, 
     a.evals += hi - lo;
 }
 
+/// the same mapping as a user meets it: `Mp4Track::language()` of a whole file opened through
+/// `Mp4Reader::read_header`, for every packed word and for several major brands (the language field
+/// means the same thing in all of them for this library, which has no QuickTime mode)
+fn file_lang(a: &mut Acc, lo: u32, hi: u32, only_brand: Option<usize>) {
+    const BRANDS: [&[u8; 4]; 6] = [b"isom", b"qt  ", b"mp42", b"M4A ", b"3gp4", b"dash"];
+    for (bi, brand) in BRANDS.iter().enumerate() {
+        if only_brand.map_or(false, |o| o != bi) {
+            continue;
+        }
+        let mut runner = crate::gen::fixed_runner(16);
+        let t = crate::gen::draw(&crate::gen::table_track(1, 2), &mut runner);
+        let mut m = crate::gen::movie_shell(vec![t]);
+        m.major = **brand;
+        let mut bytes = refmp4::movie::build(&m).bytes;
+        let Some(p) = bytes.windows(4).position(|w| w == b"mdhd") else {
+            a.fail("c16:file-lang-harness", "no mdhd in the reference file".into(), json!({}));
+            return;
+        };
+        // version-0 mdhd: fourcc, version/flags, 4 x u32, language word
+        let at = p + 4 + 4 + 16;
+        for code in lo..hi {
+            let code = code as u16;
+            bytes[at..at + 2].copy_from_slice(&code.to_be_bytes());
+            let len = bytes.len() as u64;
+            let b2 = bytes.clone();
+            let got = match crate::engine::guard(move || mp4::Mp4Reader::read_header(Cursor::new(b2), len).map(|r| r.tracks().get(&1).map(|t| t.language().to_string()))) {
+                Ok(Ok(Some(l))) => l,
+                other => {
+                    a.fail("c16:file-lang-open", format!("brand {:?}, language word {:#06x}: {:?}", String::from_utf8_lossy(*brand), code, other.map(|r| r.map_err(|e| e.to_string()))), json!({"file_lang_code": code, "brand": bi}));
+                    continue;
+                }
+            };
+            let want: String = refmp4::unpack_lang(code).iter().map(|b| *b as char).collect();
+            if got != want {
+                a.fail("c16:file-lang", format!("file with major brand {:?}: language word {:#06x} is reported as {:?}, expected {:?}", String::from_utf8_lossy(*brand), code, got, want), json!({"file_lang_code": code, "brand": bi}));
+            }
+            a.evals += 1;
+        }
+    }
+}
+
 fn mdhd_lang(a: &mut Acc, lo: u32, hi: u32) {
     for code in lo..hi {
         let code = code as u16;
@@ -459,6 +500,7 @@ pub fn run(ctx: &mut Ctx) {
     acc.ctx.stage("language");
     let per = 65536 / nshards;
     mdhd_lang(&mut acc, per * shard, if shard + 1 == nshards { 65536 } else { per * (shard + 1) });
+    file_lang(&mut acc, per * shard, if shard + 1 == nshards { 65536 } else { per * (shard + 1) }, None);
     letters3(&mut acc, shard, nshards);
     acc.ctx.stage("fixed-point");
     fixed_points(&mut acc, thorough, shard, nshards);
@@ -507,6 +549,8 @@ pub fn replay(_ctx: &mut Ctx, _stage: &str, case: &Value) -> Check {
     let mut a = Acc { ctx: &mut dummy, evals: 0, nontrivial: 0, fails: BTreeMap::new() };
     if let Some(c) = case.get("code").and_then(|v| v.as_u64()) {
         numeric_range(&mut a, c, c + 1, &named, &nt, &nt, true);
+    } else if let Some(c) = case.get("file_lang_code").and_then(|v| v.as_u64()) {
+        file_lang(&mut a, c as u32, c as u32 + 1, case.get("brand").and_then(|v| v.as_u64()).map(|b| b as usize));
     } else if let Some(c) = case.get("lang_code").and_then(|v| v.as_u64()) {
         mdhd_lang(&mut a, c as u32, c as u32 + 1);
     } else {
